@@ -185,6 +185,17 @@ def make_overlay(root: Path, crates_needed, use_real_indexmap=False, tokio_model
         # feature attribute has to come first, so lib.rs (only) is shifted down by one line
         txt = lib.read_text()
         lib.write_text("#![cfg_attr(kani, feature(allocator_api))]\n" + txt)
+    if tokio_model:
+        # The crate's OWN unit tests (cfg(test) modules) are written against the real tokio
+        # (AsyncReadExt, Semaphore, ...) and do not compile against the model; they would keep
+        # `cargo kani playback` (a cfg(test) build) from running the counterexample replays.
+        # They are switched off in the overlay copy, in place (no line moves).
+        for f in (root / "crates" / "turmoil" / "src").rglob("*.rs"):
+            if f.name.startswith("verif_"):
+                continue
+            t = f.read_text()
+            if "#[cfg(test)]" in t:
+                f.write_text(t.replace("#[cfg(test)]", "#[cfg(any())]"))
     members = ", ".join('"crates/%s"' % c for c in crates_needed)
     patch = []
     if not use_real_indexmap:
